@@ -9,6 +9,8 @@
           (an explicit non-loopback address); tp = "tcp" | "udp" (the socket's transport); ip = small id of the
           explicit address (0 for loopback / wildcard binds); mt = the transport spec of the mode that owns the
           socket ("tcp" | "udp" | "both"; signature only); host = the bound address as text (model prediction only)
+     [k |-> "configure"]            the mode option was changed at runtime (Proxyserver.configure ran; the servers have
+                                    not changed yet).  Every actual change of the listening sockets is a "listen" record.
      [k |-> "open", dk, port, tp, ip, host]
           a layer asks for an upstream connection.  dk = what the destination host denotes, decided by the same
           parser: "localhost" | "localhost_case" | "localhost_dot" | "lo4" (127.0.0.1) | "lo4_other" (rest of
@@ -25,7 +27,7 @@
      [k |-> "end"]                                                                                         *)
 EXTENDS Verif
 
-MonInit == [bad |-> <<>>, wit |-> {}, socks |-> <<>>, d |-> [dk |-> "", port |-> 0, tp |-> "", ip |-> 0], pending |-> FALSE]
+MonInit == [bad |-> <<>>, wit |-> {}, first |-> <<>>, nlisten |-> 0, scheduled |-> FALSE, socks |-> <<>>, d |-> [dk |-> "", port |-> 0, tp |-> "", ip |-> 0], pending |-> FALSE]
 
 LoopbackDest == {"localhost", "localhost_case", "localhost_dot", "lo4", "lo4_other", "lo6", "lo6_alt", "lo_mapped"}
 WildcardDest == {"any4", "any6", "any6_alt", "any_mapped"}
@@ -57,14 +59,20 @@ Clause(m, ev) ==
 
 MonStep(m, ev) ==
   LET m1 == [m EXCEPT !.bad = Clause(m, ev)] IN
-  CASE ev.k = "listen" -> [m1 EXCEPT !.socks = ev.socks]
-    [] ev.k = "open" -> [m1 EXCEPT !.d = [dk |-> ev.dk, port |-> ev.port, tp |-> ev.tp, ip |-> ev.ip], !.pending = TRUE]
+  CASE ev.k = "listen" -> [m1 EXCEPT !.socks = ev.socks, !.nlisten = @ + 1, !.scheduled = FALSE,
+                                     !.first = IF m.nlisten = 0 THEN ev.socks ELSE @]
+    [] ev.k = "configure" -> [m1 EXCEPT !.scheduled = TRUE]
+    [] ev.k = "open" -> [m1 EXCEPT !.d = [dk |-> ev.dk, port |-> ev.port, tp |-> ev.tp, ip |-> ev.ip], !.pending = TRUE,
+                                   !.wit = @ \cup (IF m.scheduled THEN {"open_between_configure_and_update"} ELSE {})
+                                             \cup (IF ~m.scheduled /\ m.nlisten = 2 THEN {"open_while_servers_start"} ELSE {})]
     [] ev.k = "hook" ->
          [m1 EXCEPT !.wit = @ \cup
             (IF Hits(m) # {} /\ ev.err = "destination_unknown"
              THEN {"self_refused", "self_refused_" \o m.d.dk}
                   \cup (IF m.d.dk \in WildcardDest /\ ~LoopOrAll(m.socks[First(Hits(m))])
                         THEN {"self_refused_wildcard_explicit_listener"} ELSE {})
+                  \cup (IF m.nlisten >= 3 /\ ~\E i \in 1..Len(m.first) : Denotes(m.d, m.first[i])
+                        THEN {"self_refused_listener_added_at_runtime"} ELSE {})
              ELSE {})
             \cup (IF Hits(m) = {} /\ ev.err = "none" THEN {"other_let_through"} ELSE {})
             \cup (IF Hits(m) = {} /\ ev.err = "destination_unknown" THEN {"other_refused"} ELSE {})]
